@@ -155,20 +155,15 @@ class C10(Check):
 
     # ------------------------------------------------------------------ oracle
     def _expected(self, cfg, e, op, fresh_holder):
+        """the same operation on a PRIVATE, brand-new instance that nothing else ever touches (one instance per operation: the
+        expected value is a function of (config, operation) only, so a replay in another process computes the same value even when
+        the code under test leaks state between calls)"""
         op = O.eager_form(op)
         key = (cfg, jhash(op))
         v = self.expected.get(key)
         if v is None:
-            if fresh_holder[0] is None or op[0] in ('sibling', 'construct'):
-                # operations that create other instances get a throw-away oracle instance, so that a leak between instances
-                # can never contaminate the expected value of a later operation
-                fresh = (W.build(cfg), {}, {})
-                if op[0] not in ('sibling', 'construct'):
-                    fresh_holder[0] = fresh
-            else:
-                fresh = fresh_holder[0]
-            q, stash, shared = fresh
-            v = O.run_op(q, e, op, stash, shared=shared)
+            q = W.build(cfg)
+            v = O.run_op(q, e, op, {}, shared={})
             if len(self.expected) > 200000:
                 self.expected.clear()
             self.expected[key] = v
